@@ -1051,7 +1051,9 @@ func c04Serialize(res *world.Result, e registry.Entry, logf func(string, ...inte
 		if room < 0 {
 			room = 0
 		}
+		once := ch("ser.refused-once", 3) == 1 // the write that does not fit is refused, later ones are taken
 		ws := simio.NewWriter(room)
+		ws.Once = once
 		es := guardGen(func() genOutcome {
 			sw := tbinary.Default.Writer(ws)
 			defer sw.Close()
@@ -1061,6 +1063,7 @@ func c04Serialize(res *world.Result, e registry.Entry, logf func(string, ...inte
 			return genOutcome{ok: true}
 		})
 		wv := simio.NewWriter(room + len(w2.Buf) - len(w1.Buf))
+		wv.Once = once
 		ev := guardGen(func() genOutcome {
 			w, err := x.ToWire()
 			if err != nil {
